@@ -1170,7 +1170,8 @@ def run_split(res, rng, texts):
             continue
         want = impl_get_ast(text)
         opts = rng.choice(OPTIONS)
-        mat = rng.choice(['0', '3 -2.7', '12 0.0602', '1 1.0-3', '00', '7 +1'])
+        mat = rng.choice(['0', '3 -2.7', '12 0.0602', '1 1.0-3', '00', '7 +1',
+                          '4 1.0E-3', '5 6.02e-2'])
         glue = ' ' * rng.choice((1, 1, 2))
         if opts and text.rstrip().endswith(')') and rng.random() < 0.3:
             glue = ''            # "...)imp:n=1" is legal
